@@ -155,6 +155,8 @@ def scenario(rnd, kind):
     pw = rand_cred(rnd)
     sc = {"user": user, "pw": pw, "cuser": case_variant(rnd, user), "cpw": case_variant(rnd, pw),
           "reimport": rnd.random() < 0.5}
+    if sc["reimport"] and rnd.random() < 0.5:
+        sc["export_via_display"] = True
     if rnd.random() < 0.05:
         sc["noise"] = rnd.getrandbits(16)
     if rnd.random() < 0.06:
